@@ -38,6 +38,11 @@ def l4Eq (a b : L4) : Bool := a.proto == b.proto && a.ports == b.ports
 /-- `repr(a)` : `crobj.compressed_str` does not exist -/
 def l4Repr (_ : L4) : Except XErr Str := .error .attributeError
 
+/-- `L4Object(p, s, "asa").port_list` for every `(p, s)` of a list, built one after the other in
+one process: each answer is the answer of that construction alone (the class keeps no state) -/
+def pseq (l : List (Str × Str)) : List (Except Err (List Nat)) :=
+  l.map (fun ps => l4 ps.1 "asa".toList ps.2)
+
 inductive Guard | specNone | specInt | specList | eqInt
 deriving Repr, DecidableEq
 
